@@ -1,5 +1,6 @@
 mod amo;
 mod cache;
+mod containers;
 mod gen;
 mod mapping;
 mod pool;
@@ -93,6 +94,7 @@ fn real_main() {
                 "amo" => amo::gen_case(&mut crng, i),
                 "cache" => cache::gen_case(&mut crng),
                 "pool" => pool::gen_case(&mut crng),
+                "containers" => containers::gen_case(&mut crng),
                 "snapshot" => snapshot::gen_case(&mut crng),
                 "solve" => { let k = *crng.pick(&[gen::Kind::General, gen::Kind::General, gen::Kind::Tight, gen::Kind::Tight, gen::Kind::Hints]); solve::gen_case(&mut crng, k) }
                 "soft" => solve::gen_case(&mut crng, gen::Kind::Soft),
@@ -120,6 +122,7 @@ fn real_main() {
             "amo" => guarded(move || amo::run_case(&l2)),
             "cache" => guarded(move || cache::run_case(&l2)),
             "pool" => guarded(move || pool::run_case(&l2)),
+            "containers" => vec!["generated-only".to_string()],
             "snapshot" => guarded(move || snapshot::run_case(&l2)),
             "solve" | "soft" | "conflictfree" | "lazy" | "cancel" | "reuse" | "reuse-async" | "async" | "async-cf" | "amo-solve" => guarded(move || solve::run_case(&l2)),
             f => panic!("unknown family {f}"),
